@@ -150,6 +150,16 @@ def check_case(ctx, case):
             z2 = ok.transform(c0[:5, 0] + 0.5, c0[:5, 1] + 0.5)
         if not all_close(z1.tolist(), z2.tolist(), rel=0):
             return fail('kriging-alias-values', 'kriging results follow later changes of the caller\'s value array')
+        reg('kriging-values-metricspace')
+        vv = v0.copy()
+        with quiet():
+            okm = OrdinaryKriging(V, min_points=2, max_points=6, coordinates=MetricSpace(c0.copy(), 'euclidean'), values=vv)
+            z1 = okm.transform(c0[:5, 0] + 0.5, c0[:5, 1] + 0.5)
+            vv += 50
+            z2 = okm.transform(c0[:5, 0] + 0.5, c0[:5, 1] + 0.5)
+        if not all_close(z1.tolist(), z2.tolist(), rel=0):
+            return fail('kriging-alias-values', 'kriging (coordinates as MetricSpace) follows later changes of the '
+                        'caller\'s value array')
 
 
 SEEDED_SNIPPET = r'''
